@@ -733,6 +733,11 @@ def misc_recipes(seed):
         [[[1, 1]], '>', 0], [[[2, 1], [2, -3]], '<=', 0], [[[1, 2]], '<=', 3],
         [[[1, 1], [1, 2]], '>=', -2], [[], '<=', 0], [[[5, 1], [12, -2]], '>=', 13],
         [[[100, 3], [7, -1]], '==', 107],
+        # integers that a float cannot hold exactly (coefficients and degrees are
+        # arbitrary Python integers)
+        [[[2 ** 53 + 1, 1], [3, -2]], '>=', 2 ** 53 + 2], [[[2 ** 63 - 1, 2], [1, 3]], '==', 2 ** 63 - 1],
+        [[[10 ** 18 + 3, 1], [10 ** 18 + 1, 2]], '>=', 10 ** 18 + 7],
+        [[[1, 1], [1, 2]], '>=', 2 ** 64 + 1],
     ]
     for k in range(len(norm)):
         steps = [['con'] + norm[(k + j) % len(norm)] for j in range(3)]
